@@ -34,32 +34,64 @@ def sysroot(name, build=True, timeout=300):
     return d
 
 
+def _stratified(lines, key, n, rnd):
+    """Deterministic stratified sample: round-robin over the strata (shuffled inside), so that every stratum that exists
+    in the vector set is represented before any stratum gets a second line."""
+    strata = {}
+    for line in lines:
+        strata.setdefault(key(line), []).append(line)
+    keys = sorted(strata, key=repr)
+    for k in keys:
+        rnd.shuffle(strata[k])
+    out, i = [], 0
+    while len(out) < n and any(strata[k] for k in keys):
+        for k in keys:
+            if strata[k] and len(out) < n:
+                out.append(strata[k].pop())
+        i += 1
+    return out, len(keys)
+
+
 def to_lines(vec_paths, n_bytes, n_sub, seed):
-    """Deterministic sample of vectors in the lean text format of harness/src/miri_sample.rs."""
+    """Deterministic sample of vectors in the lean text format of harness/src/miri_sample.rs. Miri is ~1000x slower than
+    native code, so the sample is stratified instead of uniform: byte-search vectors by (model, width, operation, number
+    of needles, set of loop arms the L-model took), substring vectors by (needle length, no match / match at the very
+    start / in the middle / ending exactly at the end of the haystack, number of matches capped at 3)."""
     rnd = random.Random(seed)
     gl, ml = [], []
+    graw, mraw = [], []
     for vp in vec_paths:
         with open(vp) as f:
             for line in f:
                 if '"m":"mm"' in line:
-                    ml.append(line)
+                    mraw.append(line)
                 elif '"m":"generic"' in line or '"m":"swar"' in line:
-                    gl.append(line)
-    rnd.shuffle(gl)
-    rnd.shuffle(ml)
+                    graw.append(line)
+    cap = 250000        # parsing is the cost; the strata are found in a uniform subsample of this size
+    gl = [json.loads(l) for l in (graw if len(graw) <= cap else rnd.sample(graw, cap))]
+    ml = [json.loads(l) for l in (mraw if len(mraw) <= cap else rnd.sample(mraw, cap))]
+
+    def gkey(v):
+        return (v["m"], v.get("vb"), v["op"], v["nn"], tuple(sorted(v.get("arms", []))))
+
+    def mkey(v):
+        nl, hl, f = len(v["n"]), len(v["h"]), v["find"]
+        pos = "none" if f < 0 else "start" if f == 0 and v["rfind"] + nl != hl else "end" if v["rfind"] + nl == hl else "mid"
+        return (nl, pos, min(len(v["fwd"]), 3))
+
+    gs, gk = _stratified(gl, gkey, n_bytes, rnd)
+    ms, mk = _stratified(ml, mkey, n_sub, rnd)
     out = []
     cs = lambda xs: ",".join(str(x) for x in xs) if xs else "-"
-    for line in gl[:n_bytes]:
-        v = json.loads(line)
+    for v in gs:
         if v["fill"] == 0:
-            ms = sorted(v["pts"])
+            pts = sorted(v["pts"])
         else:
-            ms = [i for i in range(v["len"]) if i not in v["pts"]]
-        out.append("G %s %d %d %d %s" % (v["op"], v["nn"], v["len"], v["res"], cs(ms)))
-    for line in ml[:n_sub]:
-        v = json.loads(line)
+            pts = [i for i in range(v["len"]) if i not in v["pts"]]
+        out.append("G %s %d %d %d %s" % (v["op"], v["nn"], v["len"], v["res"], cs(pts)))
+    for v in ms:
         out.append("M %d %d %s %s %s %s" % (v["find"], v["rfind"], cs(v["n"]), cs(v["h"]), cs(v["fwd"]), cs(v["rev"])))
-    return out
+    return out, {"byte_search_strata": gk, "substring_strata": mk}
 
 
 def run_target(ctx, name, lines, classes, par=6, timeout=420):
@@ -99,7 +131,8 @@ def run_target(ctx, name, lines, classes, par=6, timeout=420):
                 else:
                     ctx.note("Miri (%s) memory-access error (decided by C05): %s" % (name, msg))
             else:
-                ctx.vehicles_skipped.append({"vehicle": name, "reason": "miri exited %s: %s" % (pr.returncode, err[-200:])})
+                first = [l.strip() for l in err.splitlines() if l.startswith("error")][:1]
+                ctx.vehicles_skipped.append({"vehicle": name, "reason": "miri exited %s on %s: %s" % (pr.returncode, os.path.basename(fp), (first[0] if first else err[-200:])[:300])})
             continue
         done_chunks += 1
         for l in out.splitlines():
@@ -118,9 +151,10 @@ def run_target(ctx, name, lines, classes, par=6, timeout=420):
 def run(ctx, vecs, classes, executed, targets=None, n_bytes=None, n_sub=None):
     q = ctx.quick
     targets = targets or (["neon"] if q else ["neon", "be64", "le32"])
-    nb = n_bytes if n_bytes is not None else (200 if q else 1500)
+    nb = n_bytes if n_bytes is not None else (300 if q else 1500)
     ns = n_sub if n_sub is not None else (60 if q else 600)
-    lines = to_lines(vecs, nb, ns, ctx.seed)
+    lines, strata = to_lines(vecs, nb, ns, ctx.seed)
+    ctx.add_counters(strata, prefix="miri_sample.")
 
     def one(name):
         t0 = time.time()
